@@ -392,6 +392,23 @@ func main() {
 			}
 		}
 		run.Cov["script_templates_and_classes_in_one_process"] = 600
+		// two css templates with identical declarations and different names, in both orders of first use, each in a
+		// fresh context: each element carries its own template's class name and each class gets its own rule
+		for _, first := range []string{"c1", "twin"} {
+			ctx := templ.InitializeContext(context.Background())
+			var b strings.Builder
+			if first == "c1" {
+				OpClassDirect1().Render(ctx, &b)
+				OpTwin().Render(ctx, &b)
+			} else {
+				OpTwinFirst().Render(ctx, &b)
+			}
+			out := b.String()
+			twinID := c1twin().ClassName()
+			if !strings.HasPrefix(twinID, "c1twin_") || !strings.Contains(out, "class=\""+twinID+"\"") || !strings.Contains(out, "."+twinID+"{") || !strings.Contains(out, "class=\""+c1ID+"\"") || !strings.Contains(out, "."+c1ID+"{") {
+				run.Violation("css-twin", fmt.Sprintf("css templates c1 and c1twin (same declarations), %s used first: rendered %q; want class %s and class %s each with its own rule", first, out, c1ID, twinID), map[string]any{"first": first, "html": out})
+			}
+		}
 		// a caller-owned list of scripts passed with list...: the call must leave the list as it is, in every state of
 		// the context (nothing rendered yet, the first / the second / both already rendered), and a later context
 		// must get both definitions from the same list
